@@ -181,7 +181,8 @@ def _awaited_new_coroutine(crate, known, blocks, op):
 def inline_new_helpers(crate, raw, defpath, depth=3):
     """Splice the bodies of crate-local functions that are not in the frozen function list into `raw` (the MIR facts of a known function)."""
     known = _known_fns().get(crate.name)
-    if not known or defpath not in known or depth <= 0:
+    # (a closure written after the freeze inside a known function is part of that function)
+    if not known or (defpath not in known and defpath.split("::{closure")[0] not in known) or depth <= 0:
         return raw, []
     inlined = []
     out = None
